@@ -327,6 +327,9 @@ pub fn infer_shapes(graph: &Graph, opts: InferShapeOptions) -> Result<InferResul
         }
     }
 
+    #[cfg(rten_verif)]
+    crate::verif::record_sym_values(values.iter());
+
     // Unique constant values.
     let mut constants = Vec::new();
     let mut constant_to_index = HashMap::new();
